@@ -1,7 +1,9 @@
 ----------------------------- MODULE HistoryGen -----------------------------
 (* Behaviour export for replay: operation histories of History. *)
 EXTENDS History, Json
-CONSTANT WModels
+CONSTANTS WModels,
+          Focus      \* "all" | "exp": only Experiment operations (and an occasional wrapper evaluation), so that
+                     \* set / update / theory on the same object follow each other
 VARIABLE hist
 E(op, s, m, q, r, f, w, w2) == [op |-> op, s |-> s, m |-> m, q |-> q, r |-> r, f |-> f, w |-> w, w2 |-> w2]
 GenInit == /\ kern = [s \in Slots |-> Dead]
@@ -10,8 +12,9 @@ GenInit == /\ kern = [s \in Slots |-> Dead]
            /\ dm = [x \in Models \X QSets |-> <<"garbage">>]
            /\ dict = [r \in Requests |-> TRUE]
            /\ ret = NoRet /\ held = NoHeld /\ nops = 0
+           /\ exper = [x \in Models \X QSets |-> NoExp]
            /\ hist = <<>>
-GenNext ==
+GenAll ==
     \/ \E s \in Slots, m \in Models, q \in QSets : MakeKernel(s, m, q) /\ hist' = Append(hist, E("make", s, m, q, "", FALSE, "", ""))
     \/ \E s \in Slots, r \in Requests, f \in BOOLEAN : Call(s, r, f) /\ hist' = Append(hist, E("call", s, kern[s].m, kern[s].q, r, f, "", ""))
     \/ \E m \in Models, q \in QSets, r \in Requests : Direct(m, q, r) /\ hist' = Append(hist, E("direct", "", m, q, r, FALSE, "", ""))
@@ -20,7 +23,16 @@ GenNext ==
     \/ \E m \in Models : ReleaseModel(m) /\ hist' = Append(hist, E("relmodel", "", m, "", "", FALSE, "", ""))
     \/ \E w \in Wrappers, r \in Requests : SetParam(w, r) /\ hist' = Append(hist, E("set", "", "", "", r, FALSE, w, ""))
     \/ \E w \in Wrappers, q \in QSets : Eval(w, q) /\ hist' = Append(hist, E("eval", "", "", q, wrap[w].store, FALSE, w, ""))
+    \/ \E m \in Models, q \in QSets, r \in Requests : ExpSet(m, q, r) /\ hist' = Append(hist, E("expset", "", m, q, r, FALSE, "", ""))
+    \/ \E m \in Models, q \in QSets : ExpUpdate(m, q) /\ hist' = Append(hist, E("expupdate", "", m, q, "", FALSE, "", ""))
+    \/ \E m \in Models, q \in QSets : ExpTheory(m, q) /\ hist' = Append(hist, E("exptheory", "", m, q, "", FALSE, "", ""))
     \/ \E w, w2 \in Wrappers : Clone(w, w2) /\ hist' = Append(hist, E("clone", "", "", "", "", FALSE, w, w2))
+GenExp ==
+    \/ \E m \in Models, q \in QSets, r \in Requests : ExpSet(m, q, r) /\ hist' = Append(hist, E("expset", "", m, q, r, FALSE, "", ""))
+    \/ \E m \in Models, q \in QSets : ExpUpdate(m, q) /\ hist' = Append(hist, E("expupdate", "", m, q, "", FALSE, "", ""))
+    \/ \E m \in Models, q \in QSets : ExpTheory(m, q) /\ hist' = Append(hist, E("exptheory", "", m, q, "", FALSE, "", ""))
+    \/ \E w \in Wrappers, q \in QSets : Eval(w, q) /\ hist' = Append(hist, E("eval", "", "", q, wrap[w].store, FALSE, w, ""))
+GenNext == IF Focus = "exp" THEN GenExp ELSE GenAll
 GenSpec == GenInit /\ [][GenNext]_<<vars, hist>>
 Emit == (nops = MaxOps) => PrintT(<<"BEHAVIOUR", ToJson([steps |-> hist, wmodel |-> [w \in Wrappers |-> wrap[w].m]])>>)
 =============================================================================
